@@ -39,6 +39,7 @@ import Driver.Suites.Magnet
 import Driver.Suites.Adopt
 import Driver.Suites.Picker
 import Driver.Suites.WsLoop
+import Driver.Suites.UdpShared
 /-! Table of suites known to the driver.  One line per suite (merge=union friendly). -/
 namespace Driver
 def registry : List Suite := [
@@ -90,5 +91,6 @@ def registry : List Suite := [
   Suites.Adopt.suite,
   Suites.Picker.suite,
   Suites.WsLoop.suite,
+  Suites.UdpShared.suite,
 ]
 end Driver
